@@ -214,8 +214,21 @@ def F15():
     return None
 
 
+def F16():
+    # the same card twice in one explicit deal must not pass silently when warnings are errors
+    s = NoLimitTexasHoldem.create_state((A.ANTE_POSTING, A.BET_COLLECTION, A.BLIND_OR_STRADDLE_POSTING), True, 0, (1, 2), 2,
+                                        (100, 100), 2)
+    with warnings.catch_warnings():
+        warnings.simplefilter('error')
+        if s.can_deal_hole('2c2c'):
+            return "can_deal_hole('2c2c') is True with warnings as errors: the player would hold the deuce of clubs twice"
+        if not s.can_deal_hole('2c3c'):
+            return "can_deal_hole('2c3c') is refused"
+    return None
+
+
 if __name__ == '__main__':
-    names = sys.argv[1:] or ['F1', 'F2', 'F3', 'F4', 'F5', 'F6', 'F7', 'F8', 'F9', 'F10', 'F14', 'F15']
+    names = sys.argv[1:] or ['F1', 'F2', 'F3', 'F4', 'F5', 'F6', 'F7', 'F8', 'F9', 'F10', 'F14', 'F15', 'F16']
     bad = 0
     for n in names:
         try:
